@@ -912,7 +912,9 @@ class TT():
 
         """
         if isinstance(indices, np.ndarray):
-            indices = tn.tensor(indices, device=self.cores[0].device)
+            if not np.issubdtype(indices.dtype, np.integer):
+                raise InvalidArguments('The index array must be of integer type.')
+            indices = tn.tensor(indices.astype(np.int64), device=self.cores[0].device)
         if isinstance(indices, (list, tuple)):
             indices = tn.tensor(indices, dtype=tn.int64, device=self.cores[0].device).reshape(len(indices), len(self.__N))
         if tn.is_tensor(indices) and (len(indices.shape) != 2 or indices.shape[1] != len(self.__N)):
@@ -1275,6 +1277,9 @@ class TT():
         # if ranged slices are used, a TT-object has to be returned.
 
         exclude = []
+
+        if isinstance(index, bool) or (isinstance(index, tuple) and any(isinstance(i, bool) or (isinstance(i, tuple) and any(isinstance(j, bool) for j in i)) for i in index)):
+            raise InvalidArguments('Boolean indices are not supported.')
 
         if isinstance(index, tuple):
             # check if more than two Ellipsis are to be found.
